@@ -48,6 +48,7 @@ ArgsInRange(a) ==
    /\ (~Has2(a, "ran") \/ InRangeNum(a.ran, Max32))
    /\ (~Has2(a, "psi") \/ InRangeNum(a.psi, [n |-> 255]))
    /\ (~Has2(a, "psis") \/ (Len(a.psis) <= 256 /\ \A i \in 1..Len(a.psis) : a.psis[i] \in 0..255))
+   /\ (~Has2(a, "gnbBits") \/ a.gnbBits \in 22..32)         \* gNB-ID: BIT STRING (SIZE(22..32)), TS 38.413 9.3.1.6
 
 \* the integer of IE id in the IE list, as a number record; [n |-> -1] when absent
 IeNum(ies, id) == LET f == FindIe(ies, id) IN IF f.found THEN Leaf(IeVal(f.ie)).v ELSE [n |-> -1]
